@@ -14,6 +14,7 @@ pub mod c10;
 pub mod c11;
 pub mod c12;
 pub mod c13;
+pub mod c14;
 pub mod c15;
 
 pub fn bind_or_die() {
@@ -50,6 +51,7 @@ pub fn run(id: &str, tier: Tier) -> i32 {
         "C11" => c11::run(tier),
         "C12" => { bind_or_die(); c12::run(tier) }
         "C13" => c13::run(tier),
+        "C14" => c14::run(tier),
         "C15" => { bind_or_die(); c15::run(tier) }
         _ => {
             eprintln!("unknown check {}", id);
@@ -76,6 +78,7 @@ pub fn replay(id: &str, v: &Value) -> i32 {
         "C11" => c11::replay,
         "C12" => c12::replay,
         "C13" => c13::replay,
+        "C14" => c14::replay,
         "C15" => c15::replay,
         _ => {
             eprintln!("no replay for {}", id);
